@@ -90,7 +90,21 @@ func genPlan(p *simrt.Tape, noAuctions bool) any {
 		t += []time.Duration{500 * time.Millisecond, 2 * time.Second, 3 * time.Second, 5 * time.Second}[p.Pick(4)]
 		bursts = append(bursts, t)
 		if p.Pct(80) {
-			pl.Source = append(pl.Source, srcEvent{At: t - time.Millisecond, Doc: genDoc(p, o, 35)})
+			// mostly an unrelated document; sometimes the previous usable one with nothing but gas limits changed
+			var prev *relaysim.Doc
+			if pl.Initial.Good() {
+				prev = pl.Initial
+			}
+			for _, e := range pl.Source {
+				if e.Doc.Good() {
+					prev = e.Doc
+				}
+			}
+			if prev != nil && p.Pct(35) {
+				pl.Source = append(pl.Source, srcEvent{At: t - time.Millisecond, Doc: relaysim.TweakGas(p, prev)})
+			} else {
+				pl.Source = append(pl.Source, srcEvent{At: t - time.Millisecond, Doc: genDoc(p, o, 35)})
+			}
 		}
 	}
 	deltas := []time.Duration{0, 0, 0, time.Millisecond, -time.Millisecond, 300 * time.Millisecond, 2 * time.Second}
@@ -433,6 +447,56 @@ func oracle(pl *plan, w *relaysim.World, recs []*opRec, finalInstalled time.Dura
 		}
 		return Viol("C12/not-last-good-config", "%s for %s in [%v,%v]: %s%s matches none of the %d configurations that can be in force (%s)",
 			what, val.Name, tc, tr, relaysim.Canon(got, nil), e, len(cands), strings.Join(why, " | "))
+	}
+	// what a registration round tells a relay stems from a configuration in force during the round
+	// (a registration signed under a superseded configuration must not be served from a cache)
+	for _, r := range recs {
+		if (r.Kind != "round" && r.Kind != "round-direct") || !r.returned {
+			continue
+		}
+		for _, rel := range w.Relays {
+			for _, sub := range rel.Subs {
+				if sub.Step < r.callStep || sub.Step > r.retStep {
+					continue
+				}
+				overlap := false
+				for _, q := range recs {
+					if q != r && (q.Kind == "round" || q.Kind == "round-direct" || q.Kind == "vregs") && q.callStep <= r.retStep && (!q.returned || q.retStep >= r.callStep) {
+						overlap = true // the submission may belong to the other round
+					}
+				}
+				if overlap {
+					continue
+				}
+				cands := w.Source.InForce(r.callT, sub.T)
+				for _, g := range sub.Regs {
+					var val *relaysim.Val
+					for _, v := range w.Vals {
+						if v.PubKey == g.PubKey {
+							val = v
+						}
+					}
+					if val == nil {
+						continue
+					}
+					ok := len(cands) == 0
+					for _, c := range cands {
+						ref := relaysim.Resolve(w, c, val)
+						if ref.Unspec {
+							ok = true
+							break
+						}
+						if rr := ref.Relays[rel.N]; rr != nil && relaysim.FeeIndex(g.Fee) == rr.Fee && g.Gas == rr.Gas {
+							ok = true
+						}
+					}
+					if !ok {
+						return Viol("C12/registration-not-from-config-in-force", "registration round called at %v: relay %d was told fee recipient %d, gas limit %d for %s at %v, which none of the %d configurations in force during the round resolves to", r.callT, rel.N, relaysim.FeeIndex(g.Fee), g.Gas, val.Name, sub.T, len(cands))
+					}
+					out.Probes["registration-content-checked"]++
+				}
+			}
+		}
 	}
 	for _, r := range recs {
 		if r.Kind != "lookup" && r.Kind != "lookup-nil" {
